@@ -362,6 +362,8 @@ PROPS["C12"] = dict(
           "deliver-all). Non-trivial = an older session's event or teardown happens after the newest session subscribed. Distinct = distinct case."),
     assumptions=["proviso of the property: the accepting node knows the previous session", "judged only with all gossip delivered (quiescence)"],
     runs=[
+        # at the very moment the new connection holds its CONNACK the earlier session pings: not answered, closed; chains of 1-4 takeovers
+        dict(name="connack", pkg="c12", run="TestOldSessionAtConnAck", checks=dict(quick=96, thorough=1600), shards=8, timeout=dict(quick=400, thorough=2400), shrinktime="60s"),
         # 2-24 connections presenting one identifier at the same moment on a node knowing 0 / 2000 / 20000 sessions: all established, exactly one served after their pings
         dict(name="simultaneous", pkg="c12", run="TestSimultaneousConnects", checks=dict(quick=64, thorough=1600), shards=8, timeout=dict(quick=400, thorough=2400), shrinktime="60s"),
         # takeover during an outage of the broker links; the removal arrives by push/pull 0-28 h later (tombstones must not be forgotten)
@@ -664,7 +666,7 @@ ADDITIONS = {
     "C08": "Run volume: 70 000 / 300 000 changes of each kind made on three origins, delivered in order, reversed and shuffled (batches, duplicates) to three replicas that must all list what the reference table lists.",
     "C09": "Run fingerprints: among 200 000 / 1 500 000 real broadcasts, pairs of different messages that agree under one of 12 32-bit fingerprints (CRC-32 x3, FNV, Adler, truncated MD5/SHA-1/SHA-256, ...) are found by birthday search and delivered to a fresh receiver adjacent, reversed, with duplicates and 300 messages apart; the receiver must list what the reference table of the decoded messages lists.",
     "C10": "Run sizes: every snapshot size from 1 to 1100 (thorough 4200) sessions, twice as many subscriptions, half as many retained messages (with removals), merged by a fresh node and by a node that lives on snapshots alone.",
-    "C12": "Run simultaneous: 2-24 connections presenting one identifier at the same moment on a node knowing 0 / 2000 / 20000 sessions: all are established; after each has pinged exactly one is served, the one the identifier resolves to.",
+    "C12": "Run simultaneous: 2-24 connections presenting one identifier at the same moment on a node knowing 0 / 2000 / 20000 sessions: all are established; after each has pinged exactly one is served, the one the identifier resolves to. Run connack: at the very moment the new connection has received its CONNACK the earlier session sends a PINGREQ: it is not answered and that connection is closed; the identifier resolves to the new session, whose own PINGREQ is answered (chains of 1-4 takeovers).",
     "C15": "Run longlogs: logs growing past 10 000 (thorough 100 000) entries with the consumer killed before, at and after the boundary while a backlog is ahead of it, then restarted.",
     "C16": "File entries whose password column is empty or a truncated digest (disabled accounts): they match no password.",
     "C17": "Mount-point names may be hierarchical (customers/acme, t/1/x), no name being a level-prefix of another.",
